@@ -12,7 +12,7 @@ from .. import apirun, common
 from ..gbcases import KEY_CLASSES, decode_label, encode_key_column, null_allowed
 
 PID = "C02"
-MODULES = ["GroupbyVerif.Props.C02", "GroupbyVerif.LoopBridge.CountingSort", "GroupbyVerif.LoopBridge.WeightCode", "GroupbyVerif.LoopBridge.MonoFact"]
+MODULES = ["GroupbyVerif.Props.C02", "GroupbyVerif.LoopBridge.CountingSort", "GroupbyVerif.LoopBridge.WeightCode", "GroupbyVerif.LoopBridge.MonoFact", "GroupbyVerif.LoopBridge.CombineFact"]
 RULE = ("seeded random key columns (1-3 keys, classes int/float+NaN/str/bool/datetime+NaT/categorical with unused categories, nulls in any "
         "key position, sorted prefixes of every length class, NaN inside a sorted prefix) x routes {factorize_1d, factorize_2d, "
         "monotonic_factorization, GroupBy plain, GroupBy with the chunking threshold scaled to 8 rows (chunked / monotonic / partially "
